@@ -178,3 +178,25 @@ Definition G04b (srcs : list vsrc) (nb : nat) : bool := negb (forallb (fun k => 
 Definition run_q (srcs : list vsrc) (nb : nat) (solve : list nat -> option (list Q)) (qlim2 : bool) (gens : list gen) : qres :=
   if G04b srcs nb then qrun solve qlim2 gens
   else match solve [] with Some qg => QDone (mkS [] []) qg 1 | None => QErr 2 end.
+
+(* ---------- runpf_pypower._run_ac_pf_with_qlims_enforced (fdbx, fdxb, gs): after "fix: fdbx/fdxb/gs enforce the q limits of gens
+   whose min_q_mvar or max_q_mvar is 0" the loop excludes exactly the reference gens and selects with `k >= len(mx)`, i.e. it is
+   [qloop] above.  Before, reference gens were recognised by the proxy "QMAX and QMIN both non-zero": *)
+Definition viol_max_old_pypower (gens : list gen) (limited : list nat) (qg : list Q) : list nat :=
+  filter (fun i => match nthg gens i with
+                   | Some g => g_on g && negb (memn i limited) && (negb (qeqb (g_qmax g) 0) && negb (qeqb (g_qmin g) 0))
+                               && qltb (g_qmax g) (nthq qg i)
+                   | None => false end) (idxs gens).
+
+(* ---------- pfsoln._update_p: after "fix: pfsoln writes the slack power to the gen rows, not to positions in the list of
+   switched-on gens" the gens of a reference bus are rows of gen (on[gbus == slack_bus]), which is what C01.Model.pg_after
+   assumes.  Before, positions in gbus = gen[on, GEN_BUS] were used as row numbers: *)
+Fixpoint positions_eq (k : nat) (l : list nat) (i : nat) : list nat :=
+  match l with [] => [] | b :: t => if Nat.eqb b k then i :: positions_eq k t (S i) else positions_eq k t (S i) end.
+Definition on_rows (gens : list gen) : list nat :=
+  filter (fun i => match nthg gens i with Some g => g_on g | None => false end) (idxs gens).
+Definition gbus_of (gens : list gen) : list nat :=
+  map (fun i => match nthg gens i with Some g => g_bus g | None => 0%nat end) (on_rows gens).
+Definition gens_at_bus_old (gens : list gen) (k : nat) : list nat := positions_eq k (gbus_of gens) 0.
+Definition gens_at_bus_rows (gens : list gen) (k : nat) : list nat :=
+  map (fun p => nth p (on_rows gens) 0%nat) (positions_eq k (gbus_of gens) 0).
